@@ -18,7 +18,8 @@
 (* Search reductions (each sound and complete for "some placement exists"):                  *)
 (*  R1 look-ahead: the result a call will return is in the log (its ret line), so a Lin step  *)
 (*     whose result differs from it is never taken (want[t], found when the inv is consumed). *)
-(*  R2 read-only calls (Get, Has, Iterate, IterateKeys, Flush) change nothing, so any instant  *)
+(*  R2 read-only calls (Get, Has, Iterate, IterateKeys, Flush; the Flush step of flushkv)      *)
+(*     change nothing, so any instant                                                         *)
 (*     between inv and ret at which the map yields the logged result is as good as any other:  *)
 (*     their Lin step is taken at the FIRST such instant, deterministically, before anything   *)
 (*     else happens (no branching on reads; a read whose result never shows up blocks its ret).*)
@@ -28,6 +29,9 @@
 (*     Then every mutating Lin step is followed by another one, or by the ret line of its own  *)
 (*     thread, or by the (eager) Lin step and the ret line of a read that needed it.  So they  *)
 (*     are only tried when the next line is the ret of a thread that has not taken effect yet. *)
+(*  R4 once some behaviour has consumed a reset line the earlier histories are accepted, so    *)
+(*     states that still sit inside them (alternatives left on the depth-first queue) are not  *)
+(*     expanded any more (TLCGet(2) = line after the last reset line consumed).               *)
 (* The disjuncts are ordered so that the depth-first queue tries the shortest chain first.    *)
 (* Run with -workers 1 and the depth-first state queue.                                       *)
 EXTENDS KVStoreConc, Json
@@ -51,10 +55,11 @@ WantOf(t, i) == IF i > N \/ Trace[i].op \in {"reset", "final"} THEN NoRes
                 ELSE WantOf(t, i + 1)
 
 Mark(n) == /\ (TLCGet(1) < n => TLCSet(1, n))
+           /\ (Trace[n - 1].op = "reset" /\ TLCGet(2) < n => TLCSet(2, n))
            /\ (n > N => PrintT(<<"ACCEPTED", n>>) /\ TLCSet("exit", TRUE))
 
 TInit == /\ l = 2
-         /\ TLCSet(1, 2)
+         /\ TLCSet(1, 2) /\ TLCSet(2, 2)
          /\ ConcInit
          /\ cfg = Trace[1].cfg
          /\ want = [t \in Threads |-> NoRes]
@@ -79,14 +84,15 @@ WantedLin(t) == /\ Lin(t)
                 /\ pc'[t] = "lin" => res'[t] = want[t]
                 /\ UNCHANGED <<l, want>>
 
-EagerLin(t) == pc[t] = "invoked" /\ call[t].op \in ReadOnlyOps /\ WantedLin(t)
-EagerSet    == {t \in Threads : pc[t] = "invoked" /\ call[t].op \in ReadOnlyOps /\ ENABLED EagerLin(t)}
+Eager(t)    == (pc[t] = "invoked" /\ call[t].op \in ReadOnlyOps) \/ pc[t] = "flushing"    \* steps that change nothing
+EagerLin(t) == Eager(t) /\ WantedLin(t)
+EagerSet    == {t \in Threads : Eager(t) /\ ENABLED EagerLin(t)}
 
 Silent == /\ l <= N
           /\ Trace[l].op = "ret"
           /\ pc[Trace[l].t] # "lin"
-          /\ \/ \E t \in Threads \ {Trace[l].t} : call[t].op \notin ReadOnlyOps /\ WantedLin(t)
-             \/ (call[Trace[l].t].op \notin ReadOnlyOps /\ WantedLin(Trace[l].t))
+          /\ \/ \E t \in Threads \ {Trace[l].t} : ~Eager(t) /\ WantedLin(t)
+             \/ (~Eager(Trace[l].t) /\ WantedLin(Trace[l].t))
 
 (* second pass on a rejected history: what the model could return where the log says otherwise *)
 ExplainStep == /\ Explain /\ l <= N /\ Trace[l].op = "ret"
@@ -97,8 +103,9 @@ ExplainStep == /\ Explain /\ l <= N /\ Trace[l].op = "ret"
                /\ FALSE /\ UNCHANGED <<cvars, l, want>>
 
 TNext == LET E == EagerSet IN
-         IF E # {} THEN EagerLin(CHOOSE t \in E : \A u \in E : t <= u)
-                   ELSE ExplainStep \/ Silent \/ Consume
+         /\ l >= TLCGet(2)
+         /\ IF E # {} THEN EagerLin(CHOOSE t \in E : \A u \in E : t <= u)
+                      ELSE ExplainStep \/ Silent \/ Consume
 TSpec == TInit /\ [][TNext]_tvars
 
 HighWater == PrintT(<<"HW", TLCGet(1)>>)
